@@ -384,6 +384,7 @@ def run(facts, rep):
     check_shared_visited(facts, rep)
     check_exhaustive_sweep(facts, rep)
     check_closure_gluing(facts, rep)
+    check_closure_letters(facts, rep)
     return check_tables(T, rep)
 
 
@@ -555,6 +556,83 @@ def check_closure_gluing(facts, rep):
         rep.violation('E7.T10-closure-gluing', inst, 'Braid::closure reorders the bottom edges (%s) before pairing them with the top positions: an edge is glued to the top edge of its *rank*, not of the strand position it hangs at' % sorted(sorts), where=b.where())
     else:
         rep.indet('E7.T10: closure gluing outside the recognised fragment: zip %s, apply %s' % (sorted(zips), apply))
+
+
+def check_closure_letters(facts, rep):
+    """T11 (C18, "the closure of a braid word has as many crossings as letters"): the loop of Braid::closure that emits
+    the crossings runs over self.elements itself - not over a copy that a callee has rewritten - and every iteration
+    pushes exactly one crossing. A word that was "reduced" first (adjacent s, s^-1 cancelled) has the same closure up to
+    isotopy but fewer crossings than letters, and a strand whose only letters were cancelled becomes a free loop."""
+    from symex import SymEx, strip
+    b = facts.bodies.get('yui_link::braid::Braid::closure')
+    if b is None:
+        rep.indet('E7.T11: Braid::closure not found')
+        return
+    rep.saw(b)
+    inst = 'Braid::closure|one crossing per letter of self.elements'
+
+    def is_x(t):
+        t = strip(t)
+        return t[0] == 'agg' and t[1] == 'array' and len(t[2]) == 4
+    ps = SymEx(b, havoc_loops=True, max_paths=5000).run()
+    back = [p for p in ps if p.end == 'backedge']
+    letter = [p for p in back if any(e.name.split('::')[-1] == 'push' and len(e.args) == 2 and is_x(e.args[1]) for e in p.calls())]
+    if not letter:
+        rep.indet('E7.T11: no loop of Braid::closure pushes a crossing [a, b, c, d]')
+        return
+    heads = {p.head for p in letter}
+    # the source of the loop: the first into_iter whose argument is not itself loop-carried
+    src = None
+    site_of = {}
+    for p in letter:
+        for e in p.calls():
+            site_of[e.site] = e
+            if e.name.split('::')[-1] in ('into_iter', 'iter') and len(e.args) == 1 and 'loop' not in show(e.args[0], -1000) and src is None:
+                src = strip(e.args[0])
+    if src is None:
+        rep.indet('E7.T11: source of the crossing loop of Braid::closure not found')
+        return
+    if not (src[0] == 'field' and src[2] == 'elements'):
+        rep.indet('E7.T11: the crossing loop of Braid::closure runs over %s' % show(src, -1000)[:80])
+        return
+    owner = strip(src[1])
+    verdict = None
+    if owner == ('arg', 1):
+        verdict = 'ok'
+    elif owner[0] == 'post':
+        ev = site_of.get(owner[1])
+        cb = facts.bodies.get(ev.name) if ev is not None else None
+        if cb is None or len(owner) < 3 or strip(owner[2]) != ('arg', 1):
+            verdict = None
+        else:
+            rep.saw(cb)
+            writes = touched = False
+            for q in SymEx(cb, havoc_loops=True, max_paths=5000).run():
+                for e in q.events:
+                    if e.kind == 'write' and e.lv[0] == ('ptr', ('arg', 1)):
+                        touched = True
+                        if e.lv[1] and e.lv[1][0] == 'elements':
+                            writes = True
+                    if e.kind == 'call' and any(a[0] == 'mref' and a[1][0] == ('ptr', ('arg', 1)) for a in e.args if isinstance(a, tuple) and a):
+                        touched = True
+            if writes:
+                verdict = ('rewritten', ev.name)
+            elif not touched:
+                verdict = 'ok'
+    if verdict is None:
+        rep.indet('E7.T11: the crossing loop of Braid::closure runs over %s' % show(src, -1000)[:80])
+        return
+    if verdict != 'ok':
+        rep.violation('E7.T11-crossing-per-letter', inst,
+                      'Braid::closure emits its crossings from a copy of the word that %s has rewritten (it assigns `elements`): the closure no longer has one crossing per letter - cancelled letters vanish, and a strand that only they touched is reported as a free loop' % verdict[1],
+                      where=b.where())
+        return
+    npush = lambda p: sum(1 for e in p.calls() if e.name.split('::')[-1] == 'push' and len(e.args) == 2 and is_x(e.args[1]))
+    counts = sorted({npush(p) for p in back if p.head in heads})
+    if counts != [1]:
+        rep.violation('E7.T11-crossing-per-letter', inst, 'an iteration of the crossing loop of Braid::closure pushes %s crossings' % counts, where=b.where())
+    else:
+        rep.ok('E7.T11-crossing-per-letter', inst, 'for s in &self.elements { .. one push .. } on %d back-edge paths' % len(letter))
 
 
 def selftest(T, rep):
